@@ -28,6 +28,7 @@ PROPS = {}
 
 PROPS["C14"] = {
     "level": "exploration",
+    "fuzz": [('FuzzC14', 120), ('FuzzC14R', 90)],
     "runs": [
         run("TestC14Direct", (60000, 4), (1500000, 16)),
         run("TestC14Rule", (4000, 4), (150000, 16)),
@@ -111,6 +112,7 @@ PROPS["C01"] = {
 
 PROPS["C15"] = {
     "level": "exploration",
+    "fuzz": [('FuzzC15', 180)],
     "runs": [run("TestC15Direct", (60000, 4), (1500000, 16)), run("TestC15Rule", (4000, 4), (100000, 16))],
     "rule": "cases = (operator, argument, input) generated together within one edit of the decision boundary: string operators with literal "
             "and %{tx.k} arguments, numeric comparisons of neighbouring integers, @pm / @pmFromDataset / @pmFromFile phrase lists (case mixed, "
@@ -129,6 +131,7 @@ PROPS["C15"] = {
 
 PROPS["C11"] = {
     "level": "exploration",
+    "fuzz": [('FuzzC11', 180)],
     "runs": [run("TestC11", (15000, 6), (400000, 16)), run("TestC11E2E", (1500, 2), (40000, 16))],
     "rule": "cases = (pattern, 3..8 inputs): patterns are generated from a grammar (ASCII / non-ASCII / \\x{..} literals, classes, "
             "alternations with shared prefixes, optional and repeated groups, captures, ^ $ \\A \\z \\b, global and scoped (?i)) or drawn "
@@ -147,6 +150,7 @@ PROPS["C11"] = {
 
 PROPS["C10"] = {
     "level": "exploration",
+    "fuzz": [('FuzzC10', 120)],
     "runs": [run("TestC10Tx", (5000, 4), (150000, 16)), run("TestC10Buffer", (20000, 2), (500000, 8))],
     "rule": "transaction cases = (request|response side, limit 1..64, in-memory limit 1..limit, Reject|ProcessPartial, byte string whose length "
             "is biased to every threshold +-1, a partition into <=6 chunks, per chunk the entry point: slice write, reader with Len(), plain "
@@ -164,6 +168,7 @@ PROPS["C10"] = {
 
 PROPS["C07"] = {
     "level": "exploration",
+    "fuzz": [('FuzzC07', 240)],
     "runs": [run("TestC07", (8000, 6), (300000, 16))],
     "rule": "cases = configurations of 1..10 lines assembled from the complete vocabulary scraped from the working tree (every directive with "
             "plausible and hostile arguments; SecRule with every variable (key, regex key, count, negation), every operator (valid, empty "
@@ -274,6 +279,7 @@ PROPS["C13"] = {
 
 PROPS["C03"] = {
     "level": "exploration",
+    "fuzz": [('FuzzC03', 150)],
     "runs": [run("TestC03", (6000, 6), (200000, 16))],
     "rule": "cases = lists of 0..8 (name, value) byte strings (repeated and case-variant names, empty names and values, reserved characters, "
             "percent signs, non-UTF-8 bytes) placed in one carrier: query string and urlencoded body (hand-written encoder with a generated "
@@ -295,6 +301,7 @@ PROPS["C03"] = {
 
 PROPS["C16"] = {
     "level": "exploration",
+    "fuzz": [('FuzzC16', 180)],
     "runs": [run("TestC16", (2500, 6), (100000, 16))],
     "rule": "cases = 1..3 structured rule descriptions (1..3 targets over 15 variables with plain keys containing : , / = \" . and regex keys "
             "containing | , : ' \\/, counts, exclusions; 7 operators with arguments containing quotes, backslashes, commas, colons, pipes, "
